@@ -5,6 +5,8 @@ import MosnVerif.Lemmas.Tars
 import MosnVerif.Lemmas.HttpUri
 import MosnVerif.Lemmas.Relay
 import MosnVerif.Model.Http1Msg
+import MosnVerif.Lemmas.Reencode
+import MosnVerif.Model.ReencodeSpec
 /-!
 # C01 — forwarding fidelity (property theorems only)
 
@@ -449,5 +451,89 @@ example : (let s := Relay.run {} [.read .down [0x61, 0x62], .read .down [0x63], 
     (s.up.sent, s.up.closed, s.up.aborted, s.down.closed)) = ([0x61, 0x62, 0x63], true, false, true) := by decide
 -- the upstream answers while the client is still open; the answer reaches the client
 example : (Relay.run {} [.read .down [1], .write .up, .read .up [7, 8], .write .down, .peerClosed .up, .write .down]).down.sent = [7, 8] := by decide
+
+/-! ## the forwarded frame is unchanged when it is encoded AGAIN (retry) and buffers are reused in between
+
+`Model/Reencode.lean`: a decoded frame points at the buffer wrapping its raw bytes; the fast path of `Encode` hands out
+that buffer, the connection write gives it to `PutIoBuffer` (count - 1, recycled into the global pool at 0), any other
+`GetIoBuffer` of the process may take a recycled wrapper and fill it.  What each successful return of the eight encode
+functions hands out (`retain` = the frame's buffer with `Count(1)`, `bare` = without, `fresh` = a buffer of its own) and
+whether `doWriteIo` recycles are regenerated (`Gen/C01Retain.lean`). -/
+section Reencode
+open MosnVerif.Model.Reencode MosnVerif.Gen.C01Retain
+
+/-- no encode function of the five codecs hands out a buffer the frame points at without raising its count (this is the
+statement that stops checking when a `Count(1)` is dropped) -/
+theorem encode_returns_keep_reference :
+    ∀ r ∈ boltRequest ++ boltResponse ++ boltv2Request ++ boltv2Response ++ dubboFrame ++ thriftFrame ++ tarsRequest ++ tarsResponse,
+      r ≠ .bare := by decide
+
+theorem fast_path_keeps_reference (proto : String) (req : Bool) : fastByName proto req ≠ .bare := by
+  unfold fastByName
+  split <;> decide
+
+/-- **reencode_stable**: for every codec, every frame `raw`, every in-place id overwrite `patch` (a later overwrite
+hides an earlier one), whatever the pool held before the frame was decoded (`pre`), for EVERY number of tries with any
+ids and EVERY traffic on the buffer pool between them (buffers taken — recycled wrappers included, in any choice of
+sync.Pool — filled with anything, given back): the k-th encoding that reaches the wire is the frame with the k-th id.
+In particular a retry with the same id repeats the first encoding byte for byte. -/
+theorem reencode_stable (proto : String) (req : Bool) (patch : Nat → Bytes → Bytes)
+    (hp : ∀ a c x, patch a (patch c x) = patch a x) (raw : Bytes) (pre : List Other) (rounds : List Round) :
+    Reencode.run (fastByName proto req) writeRecycles patch raw pre rounds = rounds.map (fun r => patch r.id raw) := by
+  unfold Reencode.run
+  have hw : Wf (pre.foldl other Reencode.empty) := pre_wf pre ⟨by simp [Reencode.empty], by simp [Reencode.empty]⟩
+  obtain ⟨hg, hs⟩ := decode_good patch raw hw
+  rw [rounds_good (fast_path_keeps_reference proto req) writeRecycles hp rounds hg, hs, pre_sent]
+  simp [Reencode.empty]
+
+/-- the executable predicate's stability clause holds of the model's output -/
+theorem reenc_spec_holds_on_model (proto : String) (req : Bool) (patch : Nat → Bytes → Bytes)
+    (hp : ∀ a c x, patch a (patch c x) = patch a x) (raw : Bytes) (pre : List Other) (rounds : List Round) :
+    specStable (rounds.map (·.id)) (Reencode.run (fastByName proto req) writeRecycles patch raw pre rounds) = true := by
+  rw [reencode_stable proto req patch hp raw pre rounds]
+  simp only [specStable, List.length_map, beq_self_eq_true, Bool.true_and, List.all_eq_true]
+  intro p hp1 q hq1
+  have hform : ∀ (l : List Round), ∀ x ∈ (l.map (·.id)).zip (l.map (fun r => patch r.id raw)), x.2 = patch x.1 raw := by
+    intro l
+    induction l with
+    | nil => intro x hx; simp at hx
+    | cons r l ih =>
+      intro x hx
+      simp only [List.map_cons, List.zip_cons_cons, List.mem_cons] at hx
+      rcases hx with hx | hx
+      · rw [hx]
+      · exact ih x hx
+  have hform := hform rounds
+  rw [hform p hp1, hform q hq1]
+  by_cases h : p.1 = q.1
+  · simp [h]
+  · simp [h]
+
+/-! ### non-vacuity, and what dropping the `Count(1)` does -/
+/-- an id overwrite at offset 1 (one byte): later overwrites hide earlier ones -/
+def pid (i : Nat) : Bytes → Bytes
+  | x0 :: _ :: r => x0 :: UInt8.ofNat i :: r
+  | b => b
+example : ∀ a c x, pid a (pid c x) = pid a x := by
+  intro a c x
+  match x with
+  | [] => rfl
+  | [_] => rfl
+  | _ :: _ :: _ => rfl
+-- retained reference: three tries (ids 7, 7, 9) with recycling traffic in between
+example : Reencode.run .retain true pid [1, 0, 3] [.get none [5], .put 0]
+    [⟨7, none, [.get (some 0) [0xEE, 0xEE, 0xEE]]⟩, ⟨7, none, [.get (some 0) [0xEE], .put 0]⟩, ⟨9, none, []⟩]
+    = [[1, 7, 3], [1, 7, 3], [1, 9, 3]] := by decide
+-- the bare return: the write recycles the frame's buffer; a retry sends an empty buffer ...
+example : Reencode.run .bare true pid [1, 0, 3] [] [⟨7, none, []⟩, ⟨7, none, []⟩] = [[1, 7, 3], []] := by decide
+-- ... or, after any other allocation took the recycled wrapper, that allocation's bytes
+example : Reencode.run .bare true pid [1, 0, 3] [] [⟨7, none, [.get (some 0) [0xEE, 0xEE, 0xEE]]⟩, ⟨7, none, []⟩]
+    = [[1, 7, 3], [0xEE, 7, 0xEE]] := by decide
+example : specStable [7, 7] [[1, 7, 3], [0xEE, 7, 0xEE]] = false := by decide
+-- without a recycling write the bare return is harmless: the defect needs the connection's PutIoBuffer
+example : Reencode.run .bare false pid [1, 0, 3] [] [⟨7, none, [.get (some 0) [0xEE, 0xEE, 0xEE]]⟩, ⟨7, none, []⟩]
+    = [[1, 7, 3], [1, 7, 3]] := by decide
+
+end Reencode
 
 end MosnVerif.Props.C01
